@@ -17,6 +17,7 @@ type PropSpec struct {
 	Title     string
 	Funcs     []string // functions whose bodies are verified against their contracts
 	Only      []string // optional: obligation name substrings that belong to this property (default: all)
+	Exclude   []string // obligation name substrings judged by other properties, not this one
 	Technique string
 	Assume    []string // assumptions specific to the property (reduction rules etc.)
 	Bounded   []string // bounded stand-ins (names of Go tests under /verif/bounded)
@@ -32,6 +33,7 @@ type Finding struct {
 	Replay      string `json:"replay,omitempty"`
 	Commit      string `json:"commit,omitempty"`
 	Description string `json:"description,omitempty"`
+	AlsoProps   string `json:"also_props,omitempty"` // comma-separated: other properties the same obligation serves
 }
 
 func loadFindings(path string) []Finding {
@@ -106,6 +108,7 @@ func runProperty(spec *PropSpec, repo, tier string, writeEvidence bool) int {
 		fmt.Printf("ENGINE-ERROR %v\n", err)
 		return 2
 	}
+	eng.findings = loadFindings(filepath.Join(root, "known_findings.jsonl"))
 	scratch := scratchDir()
 	defer os.RemoveAll(scratch)
 	timeout := 10
@@ -129,6 +132,11 @@ func runProperty(spec *PropSpec, repo, tier string, writeEvidence bool) int {
 		results = append(results, eng.encodeFunction(fn))
 	}
 	filter := func(o *Obligation) bool {
+		for _, s := range spec.Exclude {
+			if strings.Contains(o.Name, s) {
+				return false
+			}
+		}
 		if len(spec.Only) == 0 {
 			return true
 		}
@@ -186,6 +194,9 @@ func runProperty(spec *PropSpec, repo, tier string, writeEvidence bool) int {
 			if !filter(o) {
 				continue
 			}
+			if o.Kind == "residual" {
+				continue // judged together with the obligation it belongs to
+			}
 			if o.Kind == "canary" {
 				st := "?"
 				if o.Result != nil {
@@ -218,8 +229,24 @@ func runProperty(spec *PropSpec, repo, tier string, writeEvidence bool) int {
 			}
 			// not discharged
 			if f := matchFinding(findings, spec.ID, o.Name); f != nil {
-				known = append(known, fmt.Sprintf("KNOWN-FINDING: property=%s %s", spec.ID, f.What))
 				nObl-- // known-finding obligations are listed separately, not counted as attempted proof obligations
+				if f.Shape != "" {
+					var res *Obligation
+					for _, o2 := range r.Obligations {
+						if o2.Name == o.Name+"~residual" {
+							res = o2
+						}
+					}
+					if res == nil || res.Result == nil || res.Result.Status != "unsat" {
+						var rr *SolverResult
+						if res != nil {
+							rr = res.Result
+						}
+						violations = append(violations, reportViolation(root, spec.ID, o.Name+"~residual", "the clause fails outside the shape recorded for the known finding ("+f.Shape+"): a different violation of the same property: "+o.Text, rr, r))
+						continue
+					}
+				}
+				known = append(known, fmt.Sprintf("KNOWN-FINDING: property=%s %s", spec.ID, f.What))
 				continue
 			}
 			violations = append(violations, reportViolation(root, spec.ID, o.Name, o.Text, o.Result, r))
@@ -344,7 +371,7 @@ func sortedBoolKeys(m map[string]bool) []string {
 func matchFinding(fs []Finding, prop, obligation string) *Finding {
 	for i := range fs {
 		f := &fs[i]
-		if f.Kind == "finding" && f.Property == prop && f.Obligation == obligation {
+		if f.Kind == "finding" && f.Obligation == obligation {
 			return f
 		}
 	}
